@@ -35,7 +35,8 @@ Check(e) ==
       [] e.kind = "band" ->
         Fails(<< <<"C20 number of field bins = number of 10 MHz centres inside the band", e.nfield = Cardinality(FieldBins(e.lo, e.hi))>>,
                  <<"C20 antenna-voltage bins = field bins (number and centre frequencies)", e.ant = SortedSeq(FieldBins(e.lo, e.hi))>>,
-                 <<"C20 noise bins = field bins (number and centre frequencies)", e.noise = SortedSeq(FieldBins(e.lo, e.hi))>> >>)
+                 <<"C20 noise bins = field bins (number and centre frequencies)", e.noise = SortedSeq(FieldBins(e.lo, e.hi))>>,
+                 <<"C20 the SNR is computed and finite for every event in every aligned band, whatever its width", e.snrOk>> >>)
       [] e.kind = "shower" ->
         Fails(<< <<"C20 field and SNR are finite for every event", AllFinite(e.ef1) /\ AllFinite(e.ef3) /\ FIsFinite(e.snr1) /\ FIsFinite(e.snrN4)>>,
                  <<"C20 decays outside [0, 10] km give exactly zero field",
